@@ -32,6 +32,9 @@ pub fn oracle_c11(out: &mut Out, m: &Mol, b: &Built) {
     let n = m.n();
     let replay = m.xyz_text();
     let key2 = |t: &TermDesc| pair_key(t.idxs[0], t.idxs[1]);
+    // "every angle", "every proper dihedral", "three-coordinate centre", "non-bonded pair" are the bond graph's, by
+    // definition (brute force from the bond list), not whatever lists the molecule happens to carry
+    let refc = crate::canon::reference_conn(n, &b.conn.bonds);
     let bonded: std::collections::BTreeSet<(usize, usize)> = b.conn.bonds.iter().map(|(i, j, _)| pair_key(*i, *j)).collect();
     if let Some((types, terms)) = &b.uff {
         // exactly one pair term per unordered pair: stretch iff bonded, else van der Waals
@@ -46,11 +49,11 @@ pub fn oracle_c11(out: &mut Out, m: &Mol, b: &Built) {
         // exactly one bend per angle
         let mut bends: Vec<[usize; 3]> = terms.iter().filter(|t| t.kind == "angle_a" || t.kind == "angle_b").map(|t| { let x = &t.idxs; if x[0] < x[2] { [x[0], x[1], x[2]] } else { [x[2], x[1], x[0]] } }).collect();
         bends.sort();
-        let mut angles: Vec<[usize; 3]> = b.conn.angles.iter().map(|t| if t[0] < t[2] { *t } else { [t[2], t[1], t[0]] }).collect();
+        let mut angles: Vec<[usize; 3]> = refc.angles.iter().map(|t| if t[0] < t[2] { *t } else { [t[2], t[1], t[0]] }).collect();
         angles.sort();
         if bends != angles { out.oracle_fail(&format!("UFF: bends {:?} are not one per angle {:?}", bends, angles), &replay); }
         // at most one torsion per proper dihedral, none elsewhere; barrier non-zero only for main-group central atoms
-        let mut props: Vec<[usize; 4]> = b.conn.propers.iter().map(|t| if t[0] < t[3] { *t } else { [t[3], t[2], t[1], t[0]] }).collect();
+        let mut props: Vec<[usize; 4]> = refc.propers.iter().map(|t| if t[0] < t[3] { *t } else { [t[3], t[2], t[1], t[0]] }).collect();
         props.sort();
         let mut seen = std::collections::BTreeSet::new();
         let tv: Vec<&str> = types.split(',').collect();
@@ -75,7 +78,7 @@ pub fn oracle_c11(out: &mut Out, m: &Mol, b: &Built) {
         let mut inv_centres: Vec<usize> = terms.iter().filter(|t| t.kind == "inversion").map(|t| t.idxs[0]).collect();
         inv_centres.sort();
         let mut want: Vec<usize> = vec![];
-        for imp in &b.conn.impropers {
+        for imp in &refc.impropers {
             let c = imp[0];
             let name = tv.get(c).map(|s| s.split(':').next().unwrap_or("")).unwrap_or("");
             // "whose type has tabulated inversion constants (sp2 carbon; pyramidal P, As, Sb, Bi)": decided on the assigned type
@@ -94,7 +97,7 @@ pub fn oracle_c11(out: &mut Out, m: &Mol, b: &Built) {
     let want_b: Vec<(usize, usize)> = bonded.iter().cloned().collect();
     if kb != want_b { out.oracle_fail("RB: stretches are not one per bond", &replay); }
     let mut kr: Vec<(usize, usize)> = rb_rep.iter().map(|t| key2(t)).collect(); kr.sort();
-    let mut want_r: Vec<(usize, usize)> = b.conn.nb_pairs.iter().map(|(i, j)| pair_key(*i, *j)).collect(); want_r.sort();
+    let mut want_r: Vec<(usize, usize)> = refc.nb_pairs.iter().map(|(i, j)| pair_key(*i, *j)).collect(); want_r.sort();
     if kr != want_r { out.oracle_fail("RB: repulsions are not one per non-bonded pair", &replay); }
     if rb_bonds.len() + rb_rep.len() != b.rb.len() { out.oracle_fail("RB: unexpected term kind", &replay); }
     for t in &rb_bonds {
